@@ -660,6 +660,7 @@ func cmdCheck(args []string) {
 	tier := fs.String("tier", os.Getenv("VERIF_TIER"), "quick|thorough")
 	runsFlag := fs.Int("runs", 0, "override number of runs")
 	wallFlag := fs.Float64("wall", 0, "override wall budget (s) of the run phase")
+	noEvidence := fs.Bool("no-evidence", false, "do not rewrite the evidence file (development runs on modified trees)")
 	fs.Parse(args[1:])
 	if *tier == "" {
 		*tier = "quick"
@@ -861,7 +862,9 @@ func cmdCheck(args []string) {
 		nviol = 1
 	}
 
-	writeEvidence(p, *tier, baseSeed, st, b, time.Since(t0).Seconds(), runWall, nviol, rechecked, knownHits, known)
+	if !*noEvidence {
+		writeEvidence(p, *tier, baseSeed, st, b, time.Since(t0).Seconds(), runWall, nviol, rechecked, knownHits, known)
+	}
 	kk := make([]string, 0, len(knownHits))
 	for k := range knownHits {
 		kk = append(kk, k)
